@@ -7,6 +7,7 @@ CONSTANTS
   MaxLatch = 1
   FileSteps = FALSE
   QKinds = {"past", "exact", "future"}
+  Fix = {}
   KKOps = {"U", "R", "T"}
 VIEW view
 INVARIANTS TypeOK FinishedOnlyAfter Answer ErrorTextExact NoLostUpdate QueryComplete TagAtomic
